@@ -2,6 +2,7 @@ import Pyunicorn.Lemmas.Mpi
 import Pyunicorn.Lemmas.MpiProto
 import Pyunicorn.Lemmas.MpiChunk
 import Pyunicorn.Lemmas.MpiTerm
+import Pyunicorn.Lemmas.MpiErr
 import Pyunicorn.Model.MpiKernels
 import Pyunicorn.Generated.ArithC19
 import Pyunicorn.Generated.StructC19
@@ -1158,6 +1159,98 @@ example :
   exact ⟨by decide, fun c hc => by
     have : c = 0 ∨ c = 1 ∨ c = 2 := by omega
     rcases this with h | h | h <;> subst h <;> decide⟩
+
+/-! ### error agreement: the protocol raises what the specification raises
+
+`mpi_refines_spec` (round 3) speaks about runs in which nothing has raised.  The error
+branches were tied by correspondence only.  Now: a `KeyError` (`get_result` of an id that is
+not pending) or "id already in queue" (`submit_call`) recorded in *any* reachable state is the
+error the communicator-free specification prescribes for the master program, and conversely a
+program whose specification raises `e` ends, under every fair schedule, with `e` — or with the
+one error the specification does not know, the per-slave FIFO restriction `outOfOrder`
+("get_result(id) called before get_result(other id)"), which can only hit programs that do not
+collect in submission order.  In the single-process mode there is no FIFO restriction and the
+agreement is exact. -/
+
+/-- **errors are the specification's errors** (`size ≥ 2`, every program, every schedule) -/
+theorem error_agrees_with_spec (f : α → β) (size : Nat) (hsize : 2 ≤ size) (prog : List (Op α))
+    (cs : List Nat) (e : Err) :
+    (run f (init (β := β) size prog) cs).err = some e → e ≠ .outOfOrder →
+      specRun f ([], []) prog = .error e :=
+  errOk_run f prog cs _ (inv_init f size prog hsize) (errOk_init f size prog) e
+
+/-- **single-process mode: every error is the specification's error** -/
+theorem error_agrees_with_spec_serial (f : α → β) (size : Nat) (hsize : size < 2)
+    (prog : List (Op α)) (cs : List Nat) (e : Err) :
+    (run f (init (β := β) size prog) cs).err = some e → specRun f ([], []) prog = .error e :=
+  errOkS_run f prog cs _ (sinv_init f size prog hsize) (by intro e he; simp [init] at he) e
+
+/-- **any error implies the program does not collect in submission order** (or re-uses a
+pending id): contrapositive of `inorder_never_raises`, for the record next to the above -/
+theorem raises_only_if_not_inorder (f : α → β) (size : Nat) (hsize : 2 ≤ size)
+    (prog : List (Op α)) (cs : List Nat) (e : Err)
+    (h : (run f (init (β := β) size prog) cs).err = some e) : inOrder [] prog = false := by
+  cases hio : inOrder [] prog with
+  | false => rfl
+  | true =>
+    rw [inorder_never_raises f size hsize prog hio cs] at h
+    cases h
+
+/-- **a program whose specification raises, raises** (`size ≥ 2`): under every fair schedule
+the run ends with the specified error or with the FIFO restriction `outOfOrder`; it never
+completes normally. -/
+theorem spec_error_is_raised (f : α → β) (size : Nat) (hsize : 2 ≤ size) (prog : List (Op α))
+    (e : Err) (hspec : specRun f ([], []) prog = .error e)
+    (bs : List (List Nat)) (hfair : ∀ b ∈ bs, fairBlock size b)
+    (hlen : 2 * prog.length + size + 1 ≤ bs.length) :
+    let st := run f (init (β := β) size prog) bs.flatten
+    st.err = some e ∨ st.err = some .outOfOrder := by
+  intro st
+  cases herr : st.err with
+  | none =>
+    rcases (fair_schedule_completes f size hsize prog bs hfair hlen).2.1 with h | h
+    · have := finished_run_eq_spec f size hsize prog bs.flatten herr h
+      rw [hspec] at this; cases this
+    · have h' : st.err.isSome = true := h
+      rw [herr] at h'; cases h'
+  | some e' =>
+    by_cases ho : e' = .outOfOrder
+    · right; rw [ho]
+    · left
+      have := error_agrees_with_spec f size hsize prog bs.flatten e' herr ho
+      rw [hspec] at this
+      cases this; rfl
+
+/-- … exactly the specified error in the single-process mode -/
+theorem spec_error_is_raised_serial (f : α → β) (size : Nat) (hsize : size < 2)
+    (prog : List (Op α)) (e : Err) (hspec : specRun f ([], []) prog = .error e)
+    (bs : List (List Nat)) (hfair : ∀ b ∈ bs, fairBlock size b)
+    (hlen : 2 * prog.length + size + 1 ≤ bs.length) :
+    (run f (init (β := β) size prog) bs.flatten).err = some e := by
+  cases herr : (run f (init (β := β) size prog) bs.flatten).err with
+  | none =>
+    rcases (fair_schedule_completes_serial f size hsize prog bs hfair hlen).2 with h | h
+    · have := serial_run_eq_spec f size hsize prog bs.flatten herr h
+      rw [hspec] at this; cases this
+    · rw [herr] at h; cases h
+  | some e' =>
+    have := error_agrees_with_spec_serial f size hsize prog bs.flatten e' herr
+    rw [hspec] at this
+    cases this; rfl
+
+/-- non-vacuity: an unknown id raises `KeyError`, a duplicate id "already in queue" — in the
+model and in the specification; an out-of-order collection raises only with slaves -/
+example :
+    (run (fun x : Nat => x) (init (β := Nat) 3 [.submit 0 7 1 none, .get 4]) [0, 0]).err
+      = some .keyError ∧
+    specRun (fun x : Nat => x) ([], []) [.submit 0 7 1 none, .get 4] = .error .keyError ∧
+    (run (fun x : Nat => x) (init (β := Nat) 3 [.submit 0 7 1 none, .submit 0 8 1 none])
+      [0, 0]).err = some .alreadyQueued ∧
+    (run (fun x : Nat => x) (init (β := Nat) 2
+      [.submit 0 7 1 none, .submit 1 8 1 none, .get 1]) [0, 0, 0]).err = some .outOfOrder ∧
+    (run (fun x : Nat => x) (init (β := Nat) 1
+      [.submit 0 7 1 none, .submit 1 8 1 none, .get 1]) [0, 0, 0]).got = [(1, 8)] :=
+  ⟨by decide, rfl, by decide, by decide, by decide⟩
 
 end Pyunicorn.MpiProto
 
